@@ -427,6 +427,9 @@ def _decide_rule(run, ad, rule, key, K, NW):
 # ------------------------------------------------------------------------------------------
 
 def replay(case):
+    if case.get("kind") == "placement":
+        from checks import C02_placement
+        return C02_placement.replay_placement(case)
     ad, adp = _load()
     if case["kind"] == "reject":
         fname = case["function"]
